@@ -107,6 +107,26 @@ def crosstalk(pms, msg):
     except Exception:
         pass
 
+    # an equal-parity sibling: the same address, a different ME, and - because the difference is a multiple of the CRC generator - the very
+    # same 24 parity digits.  Decoded with the functions of its own type code, before the judged frame.
+    try:
+        sib = "%028X" % (int(msg, 16) ^ (0x1FFF409 << (24 + (x >> 3) % 27)))
+        if msg != msg.upper():
+            sib = sib.lower()
+        tcs = int(sib[8:10], 16) >> 3
+        by_tc = {29: ("selected_altitude", "selected_heading", "baro_pressure_setting", "autopilot", "vnav_mode", "altitude_hold_mode", "approach_mode", "lnav_mode",
+                      "tcas_operational", "target_altitude", "vertical_mode", "horizontal_mode", "target_angle", "tcas_ra", "emergency_status", "nac_p", "sil"),
+                 28: ("emergency_state", "emergency_squawk", "is_emergency"), 31: ("version", "nic_s", "nic_a_c", "nac_p", "sil"),
+                 19: ("velocity", "speed_heading", "nac_v")}
+        names = by_tc.get(tcs, ("callsign", "category") if 1 <= tcs <= 4 else ("altitude", "oe_flag", "nuc_p") if 5 <= tcs <= 22 else ())
+        for nm in names + ("typecode", "icao"):
+            try:
+                getattr(A, nm)(sib)
+            except Exception:
+                pass
+    except Exception:
+        pass
+
 
 def str_variants(msg):
     return [("numpy.str_", np.str_(msg)), ("str subclass", StrSub(msg))]
